@@ -10,5 +10,6 @@ pub mod ops;
 pub mod report;
 pub mod rng;
 pub mod spy;
+pub mod suite;
 
 pub use parity_scale_codec as codec;
